@@ -214,8 +214,11 @@ class Module:
         self.path = path
         self.relpath = relpath
         self.is_pkg = is_pkg
-        with open(path, encoding="utf-8") as fp:
-            self.source = fp.read()
+        if relpath in getattr(program, "overrides", {}):
+            self.source = program.overrides[relpath]
+        else:
+            with open(path, encoding="utf-8") as fp:
+                self.source = fp.read()
         try:
             self.tree = ast.parse(self.source, filename=path)
         except SyntaxError as e:
@@ -285,9 +288,10 @@ class Module:
 
 
 class Program:
-    def __init__(self, root, package="schwifty"):
+    def __init__(self, root, package="schwifty", overrides=None):
         self.root = os.path.abspath(root)
         self.package = package
+        self.overrides = dict(overrides or {})   # relpath -> source text (in-memory variants for positive controls)
         self.modules = {}
         pkgdir = os.path.join(self.root, package)
         if not os.path.isdir(pkgdir):
